@@ -562,3 +562,25 @@ package dag
 //@   check [every-definition-is-rebuilt] errgroup.started == old(errgroup.started) + len(defs)
 //@   loop 1
 //@     invariant errgroup.started == old(errgroup.started) + rangeindex + 1
+
+// Reading one entity by id (C07/C13): only an id in its canonical spelling is looked up at all, and what is read is the
+// ref of that id in the namespace of the definition - nothing else.
+//@ func Read
+//@   props C07 C13
+//@   pure wrapper
+//@   requires repo != nil && def.OperationUnmarshaler != nil
+//@   requires [wrapper-non-nil] forall e *Entity :: { wrapper(e) } e != nil ==> wrapper(e) != nil
+//@   modifies repository.clockSeen
+//@   opt trusted_frame
+//@   ensures [only-a-canonical-id-is-read] err == nil ==> len(id) == 64 && entity.idCharsFrom(string(id), 0)
+//@   ensures [reads-the-ref-of-that-id] err == nil ==> (("refs/" + def.Namespace + "/" + string(id)) in repository.refs) && entity.entityHead(result) == repository.refs["refs/" + def.Namespace + "/" + string(id)]
+
+// Committing when needed (C06, C18): with nothing staged nothing is written and no ref moves; with staged operations the
+// outcome is Commit's - a failure touches no ref, a success has moved one.
+//@ func (*Entity).CommitAsNeeded
+//@   props C06 C18
+//@   requires e != nil && repo != nil
+//@   requires [separate] sarr(e.ops) != sarr(e.staging) || sarr(e.ops) == 0
+//@   ensures [nothing-staged-nothing-written] old(len(e.staging)) == 0 ==> result == nil && repository.refs == old(repository.refs) && repository.mutSeq == old(repository.mutSeq)
+//@   ensures [failure-touches-no-ref] result != nil ==> repository.refs == old(repository.refs)
+//@   ensures [staged-operations-are-committed] old(len(e.staging)) > 0 && result == nil ==> repository.refMutSeq == repository.mutSeq && repository.mutSeq > old(repository.mutSeq)
